@@ -47,6 +47,8 @@ class ProtoFlow:
         self.schema = schema
         self.writes: List[Access] = []
         self.reads: List[Access] = []
+        # message type -> accesses whose field name is computed (getattr(msg, name), HasField(var))
+        self.dynamic: Dict[str, List[Access]] = {}
         self.envs: Dict[str, Dict[str, PType]] = {}
         self.attr_types: Dict[Tuple[str, str], PType] = {}
         self._instance_attr_types()
@@ -315,11 +317,22 @@ class ProtoFlow:
                     if s and b and b[0] == "msg":
                         for alt in self.schema.messages[b[1]].oneofs.get(s, []):
                             self.reads.append(Access(b[1], alt, f, n, "whichoneof", base=recv))
+                elif meth in ("HasField", "WhichOneof", "ClearField") and n.args and const_str(n.args[0]) is None:
+                    b = self.ptype(recv, env, f)
+                    if b and b[0] == "msg":
+                        self.dynamic.setdefault(b[1], []).append(Access(b[1], "*", f, n, "dynamic", base=recv))
                 elif meth == "ClearField" and n.args:
                     s = const_str(n.args[0])
                     b = self.ptype(recv, env, f)
                     if s and b and b[0] == "msg":
                         self.writes.append(Access(b[1], s, f, n, "clear", base=recv))
+        # getattr / setattr with a computed name on a message: which field is touched is data
+        for n in walk_no_nested(f.node):
+            if isinstance(n, ast.Call) and isinstance(n.func, ast.Name) and n.func.id in ("getattr", "setattr", "hasattr") \
+                    and len(n.args) >= 2 and const_str(n.args[1]) is None:
+                b = self.ptype(deref(n.args[0]), env, f)
+                if b and b[0] == "msg":
+                    self.dynamic.setdefault(b[1], []).append(Access(b[1], "*", f, n, "dynamic", base=n.args[0]))
         for n in walk_no_nested(f.node):
             if isinstance(n, ast.Attribute) and isinstance(n.ctx, ast.Load) and id(n) not in write_bases:
                 fo = field_of(n)
